@@ -196,6 +196,8 @@ def num(v): return float(v)
 def keys(d): return list(d)
 def members(d): return list(d)
 def key_at(d, j): return list(d)[j]
+def key_index(d, k): return list(d).index(k)
+def keys_old(d): return list(d)
 def acyclic(): return True
 def heap_types(*names): return True
 def str_keys(): return True
